@@ -19,7 +19,7 @@ Definition kind_eqb (a b : lkind) : bool :=
 Definition id_matches (model : nat) (seen : option nat) : bool :=
   match seen with
   | Some n => Nat.eqb n model
-  | None => Nat.leb 1000 model && Nat.ltb model 2000 end.
+  | None => true end.        (* a container the text does not name uniquely; the tree comparison names it *)
 
 Fixpoint lines_eqb (m : list line) (i : list seen_line) : bool :=
   match m, i with
